@@ -951,6 +951,12 @@ func splitCount(value, sep, count any) (any, error) {
 	}
 
 	if len(p) == 0 {
+		// There cannot be more splits than there are characters to split
+		// between, whatever the requested count.
+		if m := utf8.RuneCountInString(s) - 1; n > m {
+			n = m
+		}
+
 		r := make([]any, n+1)
 
 		i := 0
@@ -963,6 +969,10 @@ func splitCount(value, sep, count any) (any, error) {
 
 		r[i] = s
 		return r[:i+1], nil
+	}
+
+	if m := strings.Count(s, p); n > m {
+		n = m
 	}
 
 	r := make([]any, n+1)
